@@ -38,6 +38,13 @@ type Bias struct {
 	Async bool
 	// NoEmptyValues excludes empty values (ICS-23 cannot prove them).
 	NoEmptyValues bool
+	// SortedWrites issues the writes of a version in ascending key order, each
+	// key at most once, removals only of present keys: the change-set normal form.
+	SortedWrites bool
+	// SaveCS is the chance per 100 that a version is committed through SaveChangeSet.
+	SaveCS int
+	// ReplayCS is the chance per 100 that the run ends with a change-set replay step.
+	ReplayCS int
 }
 
 // DefaultBias is the C01-style general workload.
@@ -66,7 +73,9 @@ type Gen struct {
 	pins               map[int64]bool
 	fresh              int // index of next fresh key for ordered insertion
 	touched            map[string]bool
+	present            map[string]bool // sorted mode: keys known to be present
 	initVer            int64
+	pruned             bool
 
 	steps []Step
 }
@@ -255,6 +264,10 @@ func (g *Gen) writes() {
 		n = r.Range(1, g.b.MaxOpsPerVersion)
 	}
 	g.touched = map[string]bool{}
+	if g.b.SortedWrites {
+		g.sortedWrites(n)
+		return
+	}
 	for i := 0; i < n; i++ {
 		k := g.key()
 		if g.b.NormalForm {
@@ -278,6 +291,87 @@ func (g *Gen) writes() {
 			g.dirty = true
 		}
 	}
+}
+
+// sortedWrites emits up to n writes in ascending key order, one per key,
+// removing only keys the generator knows to be present.
+func (g *Gen) sortedWrites(n int) {
+	picked := map[string]bool{}
+	var ks [][]byte
+	for i := 0; i < n; i++ {
+		k := g.key()
+		if !picked[string(k)] {
+			picked[string(k)] = true
+			ks = append(ks, k)
+		}
+	}
+	sortKeys(ks)
+	if g.present == nil {
+		g.present = map[string]bool{}
+	}
+	for _, k := range ks {
+		var s Step
+		if g.present[string(k)] && g.r.Chance(g.b.RemoveShare, 100) {
+			s = Step{Op: OpRemove, K: k}
+			delete(g.present, string(k))
+		} else {
+			s = Step{Op: OpSet, K: k, V: g.value()}
+			g.present[string(k)] = true
+		}
+		g.emit(s)
+		g.curOps = append(g.curOps, s)
+		g.dirty = true
+	}
+}
+
+// changeSet emits a SaveChangeSet step committing the next version.
+func (g *Gen) changeSet() {
+	r := g.r
+	n := r.Range(0, g.b.MaxOpsPerVersion)
+	picked := map[string]bool{}
+	var ks [][]byte
+	for i := 0; i < n; i++ {
+		k := g.key()
+		if !picked[string(k)] {
+			picked[string(k)] = true
+			ks = append(ks, k)
+		}
+	}
+	sortKeys(ks)
+	if g.present == nil {
+		g.present = map[string]bool{}
+	}
+	var cs []CSPair
+	bad := false
+	for _, k := range ks {
+		switch {
+		case g.present[string(k)] && r.Chance(g.b.RemoveShare, 100):
+			cs = append(cs, CSPair{Del: true, K: k})
+			delete(g.present, string(k))
+		case !g.present[string(k)] && r.Chance(1, 12):
+			cs = append(cs, CSPair{Del: true, K: k}) // removal of a missing key: must be rejected
+			bad = true
+		default:
+			cs = append(cs, CSPair{K: k, V: g.value()})
+			g.present[string(k)] = true
+		}
+		if bad {
+			break
+		}
+	}
+	g.emit(Step{Op: OpChangeSt, CS: cs})
+	if bad {
+		// the rejected change set leaves its first pairs uncommitted: discard them
+		g.emit(Step{Op: OpDiscard})
+		g.present = nil // unknown from here on: sorted mode only removes what it re-learns
+		return
+	}
+	nv := g.nextVersion()
+	if g.first == 0 {
+		g.first = nv
+	}
+	g.latest, g.cur = nv, nv
+	g.curOps, g.dirty = nil, false
 }
 
 func (g *Gen) save() {
@@ -465,12 +559,24 @@ func (g *Gen) readBundle() []string {
 func (g *Gen) History() []Step {
 	nv := g.r.Range(g.b.MinVersions, g.b.MaxVersions)
 	for v := 0; v < nv; v++ {
+		if g.b.SaveCS > 0 && g.cur == g.latest && !g.dirty && g.r.Chance(g.b.SaveCS, 100) {
+			g.changeSet()
+			g.between()
+			continue
+		}
 		g.writes()
 		if g.b.Reads > 0 && g.r.Chance(g.b.Reads, 100) {
 			g.emit(Step{Op: OpReads, Reads: g.readBundle()})
 		}
 		g.save()
 		g.between()
+	}
+	if g.b.ReplayCS > 0 && g.r.Chance(g.b.ReplayCS, 100) {
+		n := int64(0)
+		if g.b.SortedWrites {
+			n = 1 // writes were issued in change-set normal form: hashes must be reproduced too
+		}
+		g.emit(Step{Op: OpImportCS, N: n})
 	}
 	// leave some uncommitted changes at the end half of the time
 	if g.r.Chance(1, 2) && g.cur == g.latest {
